@@ -8,6 +8,9 @@ dst = pathlib.Path('/verif/seeded') / f'{prop}-{slug}'
 dst.mkdir(parents=True, exist_ok=True)
 shutil.copy(src / 'patch.diff', dst / 'patch.diff')
 shutil.copy(src / 'demo.py', dst / 'demo.py')
+for extra in src.iterdir():      # helper packages a demonstration imports from its own directory
+    if extra.is_dir() and extra.name != '__pycache__':
+        shutil.copytree(extra, dst / extra.name, dirs_exist_ok=True, ignore=shutil.ignore_patterns('__pycache__'))
 if (src / 'README.md').exists():
     shutil.copy(src / 'README.md', dst / 'README.md')
 files = sorted({l[6:].strip() for l in (dst / 'patch.diff').read_text().splitlines() if l.startswith('+++ b/')})
